@@ -12,6 +12,7 @@ LOG=/verif/harness/target/build-$ID.log
 mkdir -p /verif/harness/target
 EXTRA=""
 [ "$ID" = "C18" ] && EXTRA="-p fs_nowat"
+[ "$ID" = "C20" ] && EXTRA="-p c20reg"
 if ! { cargo build --release --offline -p vcheck >"$LOG" 2>&1 && { [ -z "$EXTRA" ] || cargo build --release --offline $EXTRA >>"$LOG" 2>&1; }; }; then
   echo "BUILD-FAILED (harness or /repo does not compile); see $LOG"
   tail -30 "$LOG"
@@ -26,4 +27,5 @@ if [ "$ID" = "C19" ]; then
   fi
 fi
 cd /verif
+[ "$ID" = "C20" ] && exec /verif/harness/target/release/check20 --tier "$TIER" "$@"
 exec /verif/harness/target/release/check "$ID" --tier "$TIER" "$@"
